@@ -19,6 +19,7 @@ type Effect struct {
 	Target *T
 	Value  *T
 	Node   ast.Node
+	NConds int // number of path conditions in force when the effect happened
 }
 
 func (e Effect) String() string {
@@ -363,6 +364,17 @@ func (in *Interp) execIf(x *ast.IfStmt, st *State) []*State {
 		known, val = true, cond.Name == "true"
 	} else if in.H.Cond != nil {
 		known, val, rT, rF = in.H.Cond(in, st, cond)
+	}
+	if !known {
+		// a condition already decided on this path
+		cs, ns := cond.String(), notT(cond).String()
+		for _, prev := range st.Conds {
+			if prev.String() == cs {
+				known, val = true, true
+			} else if prev.String() == ns {
+				known, val = true, false
+			}
+		}
 	}
 	var out []*State
 	if !known || val {
@@ -1135,7 +1147,7 @@ func (in *Interp) evalCall(st *State, call *ast.CallExpr, stmt bool) *T {
 	}
 	t := &T{Op: "call", Name: name, Args: all, Obj: callee, Node: call}
 	if !in.isPureCall(callee, name) {
-		st.Eff = append(st.Eff, Effect{Kind: "call", Value: t, Node: call})
+		st.Eff = append(st.Eff, Effect{Kind: "call", Value: t, Node: call, NConds: len(st.Conds)})
 	}
 	return t
 }
